@@ -339,3 +339,845 @@ Proof.
     + apply (IH (S s) ys' zs' H2 G2). intros i a' y' z' Hn Hfy Hgz. apply (H (S i) a' y' z' Hn); [|exact Hgz].
       replace (s + S i) with (S s + i) by lia. exact Hfy.
 Qed.
+
+
+Section Refine.
+  Variable deal : list nat -> nat -> list row -> list (list (list row)).
+  Variable batching : list nat -> list row -> list (list row).
+  Variable perm_b : list nat -> list bptr -> list bptr.
+  Variable perm_l : list nat -> list lptr -> list lptr.
+  Variable hash : list value -> N.
+  Variable kbits : N.
+  Variable Pn : nat.
+  Variable hasha : row -> N.
+  Variables pout capacity chunk : nat.
+  Variable tree_of : list nat -> list (list srow) -> mtree.
+  Variable lsched : list nat -> list nat.
+  Variable usched : list nat -> nat -> list uevent.
+
+  (* what is assumed of the runtime's choices: every row is delivered exactly once, there is at least one
+     partition, insertion / drain orders are orders of the stored rows, equal keys hash equally, the merge
+     queue merges every run exactly once *)
+  Hypothesis Hdeal : forall pth i rows, Permutation (flat (deal pth i rows)) rows.
+  Hypothesis Hdeal_ne : forall pth i rows, deal pth i rows <> [].
+  Hypothesis Hpb : forall pth l, Permutation (perm_b pth l) l.
+  Hypothesis Hpl : forall pth l, Permutation (perm_l pth l) l.
+  Hypothesis Hhash : hash_ok hash.
+  Hypothesis HPn : 1 <= Pn.
+  Hypothesis Hpout : 1 <= pout.
+  Hypothesis Hchunk : 1 <= chunk.
+  Hypothesis Htree : forall pth rs,
+    Permutation (runs (tree_of pth rs)) (concat rs) /\
+    (forall cs, Forall (Sorted (fun a b => sle cs a b = true)) rs ->
+                all_runs (Sorted (fun a b => sle cs a b = true)) (tree_of pth rs)).
+
+  Hypothesis Hbatch : forall pth rows, concat (batching pth rows) = rows.
+  Hypothesis Hlsched : forall pth rows,
+    Permutation (concat (interleave (lsched pth) (deal pth 0 rows))) (flat (deal pth 0 rows)).
+
+  Notation exec := (exec_pplan deal batching perm_b perm_l hash kbits Pn hasha pout capacity chunk tree_of lsched usched).
+
+  Lemma nl_refine pth d en k nk cond la ra (Lg Lw Rg Rw : list (list value)) f' :
+    nkind_of k = Some nk -> Permutation Lg Lw -> Permutation Rg Rw ->
+    (forall l r, In l Lw -> In r Rw -> unres false (nj_eval d en cond l r) = f' l r) ->
+    Permutation
+      (nl_join (Some (fun x y => unres false (nj_eval d en cond x y)))
+               nk la ra (deal pth 0 Lg) (perm_l pth (collected (deal pth 0 Lg))) (deal pth 1 Rg))
+      (pure_join k Lw Rw la ra f').
+  Proof.
+    intros Hk HL HR Hf.
+    eapply Permutation_trans; [apply nl_join_pure; apply Hpl|].
+    rewrite (spec_kind_n k nk Hk).
+    eapply Permutation_trans.
+    - apply pure_join_perm; [eapply Permutation_trans; [apply Hdeal|exact HL]|eapply Permutation_trans; [apply Hdeal|exact HR]].
+    - rewrite (pure_join_ext_in k Lw Rw la ra _ f' Hf). apply Permutation_refl.
+  Qed.
+
+  Lemma existsb_false_in {A} (f : A -> bool) l x : existsb f l = false -> In x l -> f x = false.
+  Proof.
+    intros H Hin. destruct (f x) eqn:E; [|reflexivity].
+    assert (existsb f l = true) by (apply existsb_exists; exists x; split; assumption). congruence.
+  Qed.
+
+  (* one group: the merged partial states give the reference value whenever both give a value *)
+  Lemma agg_group_agree d en (aggs : list (aggfn * bool * pexpr)) (pparts : list (list (list (row * row))))
+        (k : list value) (ms : list (list value)) avs' avs :
+    existsb (fun a => match a with (_, dis, _) => dis end) aggs = false ->
+    (forall i fn dis arg, nth_error aggs i = Some (fn, dis, arg) ->
+       forall vs, mapM (fun r => eval_pexpr d (r :: en) arg) ms = Ok vs ->
+       Permutation (concat (group_vals pparts k i)) vs) ->
+    mapM (fun ia => match ia with (i, (fn, _, _)) => agg_phys fn (group_vals pparts k i) end) (indexed 0 aggs) = Ok avs' ->
+    mapM (fun a => match a with (fn, dis, arg) =>
+            do vs <- mapM (fun r => eval_pexpr d (r :: en) arg) ms; agg_apply fn dis (length ms) vs end) aggs = Ok avs ->
+    avs' = avs.
+  Proof.
+    intros Hnd Hperm Hp Hs. apply (mapM_indexed_ext _ _ aggs 0 avs' avs Hp Hs).
+    intros i [[fn dis] arg] y z Hn Hy Hz. cbn [Nat.add] in Hy.
+    assert (Hdis : dis = false).
+    { apply nth_error_In in Hn. exact (existsb_false_in _ _ _ Hnd Hn). }
+    subst dis. destruct (bind_ok _ _ _ Hz) as [vs [Hvs Ha]].
+    unfold agg_phys in Hy. destruct (agg_wt_b fn (concat (group_vals pparts k i))) eqn:Ew; [|discriminate].
+    pose proof (Hperm i fn false arg Hn vs Hvs) as HP.
+    assert (Hlen : length ms = length vs) by (symmetry; apply (mapM_length _ _ _ Hvs)).
+    rewrite Hlen in Ha.
+    apply (agg_never_wrong fn (group_vals pparts k i) vs y z); try assumption.
+    apply (wt_perm fn _ _ HP). apply agg_wt_b_wt, Ew.
+  Qed.
+
+  Lemma mapM_ok_both {A B} (f : A -> res B) (dflt : B) l ys : mapM f l = Ok ys ->
+    ys = map (fun x => unres dflt (f x)) l /\ forall x, In x l -> f x = Ok (unres dflt (f x)).
+  Proof.
+    intros H. split; [apply (mapM_ok_map f dflt l ys H)|].
+    intros x Hx. destruct (mapM_ok_total f l ys H x Hx) as [y Hy]. rewrite Hy. reflexivity.
+  Qed.
+
+  Lemma mapM3_ok {A B} (f : A -> res B) (dflt : B) (parts : list (list (list A))) pp :
+    mapM (mapM (mapM f)) parts = Ok pp ->
+    pp = map (map (map (fun x => unres dflt (f x)))) parts /\
+    forall x, In x (concat (concat parts)) -> f x = Ok (unres dflt (f x)).
+  Proof.
+    intros H. destruct (mapM_ok_both _ [] _ _ H) as [E1 T1].
+    assert (T2 : forall part, In part parts -> forall b, In b part -> mapM f b = Ok (map (fun x => unres dflt (f x)) b) /\
+                                                     forall x, In x b -> f x = Ok (unres dflt (f x))).
+    { intros part Hp b Hb. pose proof (T1 part Hp) as Hpart.
+      destruct (mapM_ok_both _ [] _ _ Hpart) as [_ T]. pose proof (T b Hb) as Hbb.
+      destruct (mapM_ok_both f dflt _ _ Hbb) as [E T']. split; [rewrite Hbb; f_equal; exact E|exact T']. }
+    split.
+    - rewrite E1. apply map_ext_in. intros part Hp. pose proof (T1 part Hp) as Hpart.
+      destruct (mapM_ok_both _ [] _ _ Hpart) as [E2 _]. rewrite Hpart. cbn [unres]. rewrite E2.
+      apply map_ext_in. intros b Hb. destruct (T2 part Hp b Hb) as [E3 _]. rewrite E3. reflexivity.
+    - intros x Hx. apply in_concat in Hx. destruct Hx as [b [Hb Hx]]. apply in_concat in Hb. destruct Hb as [part [Hp Hb]].
+      exact (proj2 (T2 part Hp b Hb) x Hx).
+  Qed.
+
+  Lemma concat_map_map3 {A B} (g : A -> B) (parts : list (list (list A))) :
+    concat (map (@concat B) (map (map (map g)) parts)) = map g (concat (concat parts)).
+  Proof.
+    induction parts as [|p parts IH]; [reflexivity|]. cbn [map concat]. rewrite concat_app, map_app, IH. f_equal.
+    rewrite concat_map. reflexivity.
+  Qed.
+
+  Lemma concat_group_vals (pparts : list (list (list (row * row)))) k i :
+    concat (group_vals pparts k i)
+    = map (fun it => nth i (snd it) VNull) (filter (fun it => row_same k (fst it)) (concat (map (@concat (row * row)) pparts))).
+  Proof.
+    unfold group_vals. induction pparts as [|p pp IH]; [reflexivity|]. cbn [map concat].
+    rewrite IH, filter_app, map_app. reflexivity.
+  Qed.
+
+  Definition PP (d : db) (en : env) (keys : list pexpr) (aggs : list (aggfn * bool * pexpr)) (r : row) : res (row * row) :=
+    do k <- mapM (eval_pexpr d (r :: en)) keys;
+    do args <- mapM (fun a => match a with (_, _, arg) => eval_pexpr d (r :: en) arg end) aggs;
+    Ok (k, args).
+
+  Lemma PP_ok d en keys aggs r k args : PP d en keys aggs r = Ok (k, args) ->
+    mapM (eval_pexpr d (r :: en)) keys = Ok k /\
+    forall i fn dis arg, nth_error aggs i = Some (fn, dis, arg) ->
+      exists v, eval_pexpr d (r :: en) arg = Ok v /\ nth i args VNull = v.
+  Proof.
+    unfold PP. intros H. destruct (bind_ok _ _ _ H) as [k0 [Hk H1]]. destruct (bind_ok _ _ _ H1) as [a0 [Ha H2]].
+    injection H2 as <- <-. split; [exact Hk|]. intros i fn dis arg Hn.
+    destruct (mapM_nth _ _ _ _ _ Ha Hn) as [v [Hv He]]. exists v. split; [exact He|]. apply nth_error_nth. exact Hv.
+  Qed.
+
+  (* the members of a group and its per-partition values are the same bag of argument values *)
+  Lemma group_vals_perm d en keys aggs (parts : list (list (list (list value)))) (rows : list (list value)) k i fn dis arg vs :
+    (forall x, In x (flat parts) -> PP d en keys aggs x = Ok (unres ([], []) (PP d en keys aggs x))) ->
+    Permutation (flat parts) rows ->
+    nth_error aggs i = Some (fn, dis, arg) ->
+    mapM (fun r => eval_pexpr d (r :: en) arg)
+         (filter (fun x => row_same k (fst (unres ([], []) (PP d en keys aggs x)))) rows) = Ok vs ->
+    Permutation (concat (group_vals (map (map (map (fun x => unres ([], []) (PP d en keys aggs x)))) parts) k i)) vs.
+  Proof.
+    intros Hok HP Hn Hvs. rewrite concat_group_vals, concat_map_map3.
+    fold (flat parts).
+    set (PPu := fun x => unres ([], []) (PP d en keys aggs x)) in *.
+    rewrite (mapM_ok_map _ VNull _ _ Hvs).
+    rewrite filter_map_comm, map_map.
+    eapply Permutation_trans.
+    - apply Permutation_map. apply RelProofs.filter_perm. exact HP.
+    - assert (Hin : forall x, In x (filter (fun x => row_same k (fst (PPu x))) rows) -> In x (flat parts)).
+      { intros x Hx. apply filter_In in Hx. destruct Hx as [Hx _]. apply (Permutation_in x (Permutation_sym HP) Hx). }
+      rewrite (map_ext_in _ (fun x => unres VNull (eval_pexpr d (x :: en) arg))); [apply Permutation_refl|].
+      intros x Hx. pose proof (Hok x (Hin x Hx)) as Hx0. fold (PPu x) in Hx0. destruct (PPu x) as [kx ax] eqn:Epp.
+      destruct (PP_ok _ _ _ _ _ _ _ Hx0) as [_ Hargs]. destruct (Hargs i fn dis arg Hn) as [v [Hv Hnth]].
+      cbn beta. cbn [snd]. transitivity (unres VNull (Ok v)); [exact Hnth|f_equal; symmetry; exact Hv].
+  Qed.
+
+  Lemma two_level_rows_ok (pparts : list (list (list (row * row)))) : pparts <> [] ->
+    exists outs, two_level hasha (list row) [] row (fun s v => s ++ [v]) (@app row) pout capacity chunk pparts = TOk outs /\
+                 Permutation (concat (map groups outs)) (group_rows (concat (map (@concat (row * row)) pparts))).
+  Proof.
+    intros Hne. destruct (two_level_merge_exact_rows hasha pout capacity chunk Hpout Hchunk pparts Hne)
+      as [outs [Hr [_ [Hperm _]]]].
+    exists outs. split; [exact Hr|exact Hperm].
+  Qed.
+
+  Lemma group_members (kv : list (row * row)) k ms : In (k, ms) (group_rows kv) ->
+    ms = map snd (filter (fun p => row_same k (fst p)) kv).
+  Proof. intros H. exact (proj1 (proj1 (group_rows_exact kv) k ms H)). Qed.
+
+  Lemma hashagg_refine pth d en keys aggs (rows' rows : list (list value)) got want :
+    existsb (fun a => match a with (_, dis, _) => dis end) aggs = false ->
+    Permutation rows' rows ->
+    (do pparts <- mapM (mapM (mapM (PP d en keys aggs))) (deal pth 0 rows');
+     match two_level hasha (list row) [] row (fun s v => s ++ [v]) (@app row) pout capacity chunk pparts with
+     | TErr _ => Err EType
+     | TOk outs =>
+         mapM (fun g =>
+                 do avs <- mapM (fun ia => match ia with (i, (fn, _, _)) => agg_phys fn (group_vals pparts (fst g) i) end)
+                                (indexed 0 aggs);
+                 Ok (fst g ++ avs)) (concat (map groups outs))
+     end) = Ok got ->
+    (do kv <- mapM (fun x => do k <- mapM (eval_pexpr d (x :: en)) keys; Ok (k, x)) rows;
+     mapM (agg_row (map (fun a => match a with (fn, dis, arg) => (fn, dis, fun r => eval_pexpr d (r :: en) arg) end) aggs))
+          (group_rows kv)) = Ok want ->
+    Permutation got want.
+  Proof.
+    intros Hnd HP Hg Hw.
+    set (parts := deal pth 0 rows') in *.
+    assert (HPp : Permutation (flat parts) rows) by (eapply Permutation_trans; [apply Hdeal|exact HP]).
+    destruct (bind_ok _ _ _ Hg) as [pparts [Hpp Hg1]]. clear Hg.
+    destruct (mapM3_ok (PP d en keys aggs) ([], []) parts pparts Hpp) as [Epp Tpp].
+    set (PPu := fun x => unres ([], []) (PP d en keys aggs x)) in *.
+    assert (Hne : pparts <> []).
+    { rewrite Epp. intros E. apply map_eq_nil in E. exact (Hdeal_ne pth 0 rows' E). }
+    destruct (two_level_rows_ok pparts Hne) as [outs [Htl HG]]. rewrite Htl in Hg1.
+    set (G' := concat (map groups outs)) in *.
+    (* items of the table *)
+    assert (Eitems : concat (map (@concat (row * row)) pparts) = map PPu (flat parts)).
+    { rewrite Epp. apply concat_map_map3. }
+    rewrite Eitems in HG.
+    (* the reference side *)
+    destruct (bind_ok _ _ _ Hw) as [kv [Hkv Hw1]]. clear Hw.
+    assert (Ekv : kv = map (fun x => (fst (PPu x), x)) rows).
+    { rewrite (mapM_ok_map _ ([], []) _ _ Hkv). apply map_ext_in. intros x Hx.
+      assert (Hxp : In x (flat parts)) by (apply (Permutation_in x (Permutation_sym HPp) Hx)).
+      pose proof (Tpp x Hxp) as Hx0. fold (PPu x) in Hx0. destruct (PPu x) as [kx ax] eqn:Ex.
+      destruct (PP_ok _ _ _ _ _ _ _ Hx0) as [Hk _].
+      transitivity (unres ([], []) (do k <- Ok kx; Ok (k, x))); [|reflexivity].
+      f_equal. f_equal. exact Hk. }
+    (* keys of both sides are the same bag *)
+    assert (Hkeys : Permutation (map fst G') (map fst (group_rows kv))).
+    { eapply Permutation_trans; [apply Permutation_map; exact HG|].
+      assert (Hitems : Permutation (map PPu (flat parts)) (map (fun p => (fst p, snd (PPu (snd p)))) kv)).
+      { rewrite Ekv, map_map. eapply Permutation_trans; [apply Permutation_map; exact HPp|].
+        match goal with |- Permutation _ (map ?f rows) => rewrite (map_ext f PPu) end; [apply Permutation_refl|].
+        intros x. cbn [fst snd]. destruct (PPu x); reflexivity. }
+      eapply Permutation_trans; [exact (proj1 (group_rows_perm _ _ Hitems))|].
+      rewrite (group_rows_map (fun x => snd (PPu x)) kv), map_map. cbn [fst]. apply Permutation_refl. }
+    (* outputs *)
+    set (OUT := fun g : row * list row =>
+                  do avs <- mapM (fun ia => match ia with (i, (fn, _, _)) => agg_phys fn (group_vals pparts (fst g) i) end)
+                                 (indexed 0 aggs);
+                  Ok (fst g ++ avs)) in *.
+    destruct (mapM_ok_both OUT [] _ _ Hg1) as [Egot Tgot].
+    set (AG := agg_row (map (fun a => match a with (fn, dis, arg) => (fn, dis, fun r => eval_pexpr d (r :: en) arg) end) aggs)) in *.
+    destruct (mapM_ok_both AG [] _ _ Hw1) as [Ewant Twant].
+    set (OK := fun k : row => unres [] (OUT (k, []))).
+    assert (Egot' : got = map OK (map fst G')).
+    { rewrite Egot, map_map. apply map_ext. intros [k ms]. reflexivity. }
+    assert (Ewant' : want = map OK (map fst (group_rows kv))).
+    { rewrite Ewant, map_map. apply map_ext_in. intros [k ms] Hin. cbn [fst].
+      (* the group's key occurs in the table *)
+      assert (Hk' : In k (map fst G')).
+      { apply (Permutation_in k (Permutation_sym Hkeys)). apply in_map_iff. exists (k, ms). split; [reflexivity|exact Hin]. }
+      apply in_map_iff in Hk'. destruct Hk' as [[k0 ms0] [Ek0 Hin0]]. cbn [fst] in Ek0. subst k0.
+      pose proof (Tgot _ Hin0) as Ho. pose proof (Twant _ Hin) as Ha.
+      change (unres [] (AG (k, ms)) = unres [] (OUT (k, ms0))).
+      destruct (bind_ok _ _ _ Ho) as [avs' [Havs' Ho1]].
+      unfold AG, agg_row in Ha. rewrite mapM_map in Ha. destruct (bind_ok _ _ _ Ha) as [avs [Havs Ha1]].
+      cbn [fst snd] in *.
+      assert (Eavs : avs' = avs).
+      { apply (agg_group_agree d en aggs pparts k ms avs' avs Hnd); [|exact Havs'|].
+        - intros i fn dis arg Hn vs Hvs.
+          rewrite (group_members kv k ms Hin) in Hvs. rewrite Ekv in Hvs.
+          rewrite filter_map_comm, map_map in Hvs. cbn [fst snd] in Hvs. rewrite map_id in Hvs.
+          rewrite Epp. exact (group_vals_perm d en keys aggs parts rows k i fn dis arg vs Tpp HPp Hn Hvs).
+        - erewrite mapM_ext_in; [exact Havs|]. intros [[fn dis] arg] _. reflexivity. }
+      assert (E1 : OUT (k, ms0) = Ok (k ++ avs')) by (unfold OUT; cbn [fst]; rewrite Havs'; reflexivity).
+      assert (E2 : AG (k, ms) = Ok (k ++ avs)).
+      { unfold AG, agg_row. rewrite mapM_map. cbn [fst snd]. rewrite Havs. reflexivity. }
+      rewrite E1, E2, Eavs. reflexivity. }
+    rewrite Egot', Ewant'. apply Permutation_map. exact Hkeys.
+  Qed.
+
+  Lemma group_rows_nil_keys (rows : list (list value)) :
+    match group_rows (map (fun x => (@nil value, x)) rows) with [] => [([], [])] | g => g end = [([], rows)].
+  Proof.
+    assert (H : forall l acc, fold_left (fun gs (p : row * row) => group_insert (fst p) (snd p) gs)
+                                        (map (fun x => (@nil value, x)) l) [([], acc)] = [([], acc ++ l)]).
+    { induction l as [|x l IH]; intros acc; [rewrite app_nil_r; reflexivity|].
+      cbn [map fold_left fst snd group_insert row_same]. rewrite IH, <- app_assoc. reflexivity. }
+    unfold group_rows. destruct rows as [|x rows]; [reflexivity|].
+    cbn [map fold_left fst snd group_insert]. rewrite H. reflexivity.
+  Qed.
+
+  Lemma filter_all_in {A} (p : A -> bool) l : (forall x, In x l -> p x = true) -> filter p l = l.
+  Proof.
+    induction l as [|x l IH]; intros H; [reflexivity|]. cbn [filter].
+    rewrite (H x (or_introl eq_refl)), IH; [reflexivity|]. intros y Hy. apply H. right. exact Hy.
+  Qed.
+
+  Lemma ungrouped_refine pth d en aggs (rows' rows : list (list value)) got want :
+    existsb (fun a => match a with (_, dis, _) => dis end) aggs = false ->
+    Permutation rows' rows ->
+    (do pparts <- mapM (mapM (mapM (PP d en [] aggs))) (deal pth 0 rows');
+     do avs <- mapM (fun ia => match ia with (i, (fn, _, _)) => agg_phys fn (group_vals pparts [] i) end) (indexed 0 aggs);
+     Ok [avs]) = Ok got ->
+    (do kv <- mapM (fun x => do k <- mapM (eval_pexpr d (x :: en)) []; Ok (k, x)) rows;
+     mapM (agg_row (map (fun a => match a with (fn, dis, arg) => (fn, dis, fun r => eval_pexpr d (r :: en) arg) end) aggs))
+          (match group_rows kv with [] => [([], [])] | g => g end)) = Ok want ->
+    Permutation got want.
+  Proof.
+    intros Hnd HP Hg Hw.
+    set (parts := deal pth 0 rows') in *.
+    assert (HPp : Permutation (flat parts) rows) by (eapply Permutation_trans; [apply Hdeal|exact HP]).
+    destruct (bind_ok _ _ _ Hg) as [pparts [Hpp Hg1]]. clear Hg.
+    destruct (mapM3_ok (PP d en [] aggs) ([], []) parts pparts Hpp) as [Epp Tpp].
+    destruct (bind_ok _ _ _ Hg1) as [avs' [Havs' Hg2]]. injection Hg2 as <-.
+    destruct (bind_ok _ _ _ Hw) as [kv [Hkv Hw1]]. clear Hw.
+    assert (Ekv : kv = map (fun x => (@nil value, x)) rows).
+    { rewrite (mapM_ok_map _ ([], []) _ _ Hkv). apply map_ext. intros x. reflexivity. }
+    rewrite Ekv, group_rows_nil_keys in Hw1.
+    rewrite mapM_cons in Hw1. destruct (bind_ok _ _ _ Hw1) as [w [Ha Hw2]]. cbn in Hw2. injection Hw2 as <-.
+    unfold agg_row in Ha. rewrite mapM_map in Ha. destruct (bind_ok _ _ _ Ha) as [avs [Havs Ha1]]. cbn [fst snd] in *.
+    injection Ha1 as <-. cbn [app].
+    assert (Eavs : avs' = avs).
+    { apply (agg_group_agree d en aggs pparts [] rows avs' avs Hnd); [|exact Havs'|].
+      - intros i fn dis arg Hn vs Hvs. rewrite Epp.
+        apply (group_vals_perm d en [] aggs parts rows [] i fn dis arg vs Tpp HPp Hn).
+        rewrite filter_all_in; [exact Hvs|].
+        intros x Hx. assert (Hxp : In x (flat parts)) by (apply (Permutation_in x (Permutation_sym HPp) Hx)).
+        pose proof (Tpp x Hxp) as Hx0. destruct (unres ([], []) (PP d en [] aggs x)) as [kx ax] eqn:Ex.
+        destruct (PP_ok _ _ _ _ _ _ _ Hx0) as [Hk _]. cbn in Hk. injection Hk as <-. reflexivity.
+      - erewrite mapM_ext_in; [exact Havs|]. intros [[fn dis] arg] _. reflexivity. }
+    rewrite Eavs. apply Permutation_refl.
+  Qed.
+
+  (* DISTINCT / UNION: the group keys of the table over whole rows are the distinct rows *)
+  Lemma distinct_refine pth (rows' rows : list (list value)) got :
+    Permutation rows' rows ->
+    match two_level hasha (list row) [] row (fun s v => s ++ [v]) (@app row) pout capacity chunk
+                    (map (map (map (fun r => (r, r)))) (deal pth 0 rows')) with
+    | TErr _ => Err EType
+    | TOk outs => Ok (map fst (concat (map groups outs)))
+    end = Ok got ->
+    Permutation got (dedup_rows rows).
+  Proof.
+    intros HP Hg. set (parts := deal pth 0 rows') in *.
+    assert (HPp : Permutation (flat parts) rows) by (eapply Permutation_trans; [apply Hdeal|exact HP]).
+    assert (Hne : map (map (map (fun r : row => (r, r)))) parts <> []).
+    { intros E. apply map_eq_nil in E. exact (Hdeal_ne pth 0 rows' E). }
+    destruct (two_level_rows_ok _ Hne) as [outs [Htl HG]]. rewrite Htl in Hg. injection Hg as <-.
+    rewrite concat_map_map3 in HG. fold (flat parts) in HG.
+    set (kv := map (fun r : row => (r, r)) (flat parts)) in *.
+    apply NoDup_Permutation.
+    - apply (Permutation_NoDup (l := map fst (group_rows kv))); [apply Permutation_sym, Permutation_map, HG|].
+      exact (proj1 (one_row_per_group kv)).
+    - exact (proj1 (distinct_spec rows)).
+    - intros x. split.
+      + intros Hx. apply (Permutation_in x (Permutation_map fst HG)) in Hx.
+        apply in_map_iff in Hx. destruct Hx as [[k ms] [Ek Hin]]. cbn [fst] in Ek. subst k.
+        destruct (proj1 (group_rows_exact kv) x ms Hin) as [Ems Hnz].
+        apply (proj1 (proj2 (proj2 (distinct_spec rows)))).
+        (* a member exists, it is a row with this key *)
+        destruct ms as [|m ms]; [exfalso; apply Hnz; reflexivity|].
+        pose proof (in_eq m ms) as Hm. rewrite Ems in Hm.
+        apply in_map_iff in Hm. destruct Hm as [[a b] [Eb Hf]]. apply filter_In in Hf. destruct Hf as [Hin' Hs].
+        unfold kv in Hin'. apply in_map_iff in Hin'. destruct Hin' as [r [Er Hr]]. injection Er as <- <-.
+        cbn [fst] in Hs. apply row_same_iff in Hs. subst r. apply (Permutation_in x HPp Hr).
+      + intros Hx. apply (proj1 (proj2 (proj2 (distinct_spec rows)))) in Hx.
+        apply (Permutation_in x (Permutation_sym HPp)) in Hx.
+        destruct (proj1 (proj2 (group_rows_exact kv)) (x, x)) as [rs [Hin _]].
+        { unfold kv. apply in_map_iff. exists x. split; [reflexivity|exact Hx]. }
+        cbn [fst] in Hin. apply (Permutation_in x (Permutation_sym (Permutation_map fst HG))).
+        apply in_map_iff. exists (x, rs). split; [reflexivity|exact Hin].
+  Qed.
+
+  Lemma concat_map_concat {A} (l : list (list (list A))) : concat (map (@concat A) l) = concat (concat l).
+  Proof. induction l as [|x l IH]; [reflexivity|]. cbn [map concat]. rewrite concat_app, IH. reflexivity. Qed.
+
+  Lemma union_pairs_perm {A} : forall (ls rs : list (list A)), length ls = length rs ->
+    Permutation (concat (map (fun p => snd p ++ fst p) (combine ls rs))) (concat ls ++ concat rs).
+  Proof.
+    induction ls as [|l ls IH]; intros [|r rs] H; try discriminate; [constructor|].
+    cbn [combine map concat fst snd]. injection H as H.
+    eapply Permutation_trans; [apply Permutation_app_head; apply (IH rs H)|].
+    (* (r ++ l) ++ (cl ++ cr)  ~  (l ++ cl) ++ (r ++ cr) *)
+    eapply Permutation_trans; [apply Permutation_app_tail; apply Permutation_app_comm|].
+    rewrite <- !app_assoc. apply Permutation_app_head. apply Permutation_app_swap_app.
+  Qed.
+
+  Lemma union_refine pth (Lg Lw Rg Rw : list (list value)) got :
+    Permutation Lg Lw -> Permutation Rg Rw ->
+    (let ls := map (@concat row) (deal pth 0 Lg) in let rs := map (@concat row) (deal pth 1 Rg) in
+     let runs := map (fun ip => union_run (usched pth (fst ip)) (union_init [fst (snd ip)] [snd (snd ip)]))
+                     (indexed 0 (combine ls rs)) in
+     if Nat.eqb (length ls) (length rs) && forallb (fun s => u_done s) runs
+     then Ok (concat (map union_output runs)) else Err EType) = Ok got ->
+    Permutation got (Lw ++ Rw).
+  Proof.
+    intros HL HR. cbv zeta.
+    set (ls := map (@concat row) (deal pth 0 Lg)). set (rs := map (@concat row) (deal pth 1 Rg)).
+    destruct (Nat.eqb (length ls) (length rs)) eqn:El; [|discriminate]. apply Nat.eqb_eq in El.
+    match goal with |- (if true && ?b then _ else _) = _ -> _ => destruct b eqn:Ed; [|discriminate] end.
+    cbn [andb]. intros H. injection H as <-.
+    assert (Hout : forall s (prs : list (list row * list row)),
+       forallb (fun st : ustate row => u_done st)
+               (map (fun ip => union_run (usched pth (fst ip)) (union_init [fst (snd ip)] [snd (snd ip)])) (indexed s prs)) = true ->
+       concat (map union_output (map (fun ip => union_run (usched pth (fst ip)) (union_init [fst (snd ip)] [snd (snd ip)])) (indexed s prs)))
+       = concat (map (fun p => snd p ++ fst p) prs)).
+    { clear. intros s prs. revert s. induction prs as [|[l r] prs IH]; intros s Hd; [reflexivity|].
+      cbn [indexed map forallb fst snd] in Hd. apply andb_true_iff in Hd. destruct Hd as [H1 H2].
+      cbn [indexed map concat fst snd]. rewrite (IH _ H2). f_equal.
+      pose proof (union_concat row [l] [r] (usched pth s)) as [_ Hc]. rewrite (Hc H1). cbn [concat]. rewrite !app_nil_r. reflexivity. }
+    rewrite (Hout 0 (combine ls rs) Ed).
+    eapply Permutation_trans; [apply union_pairs_perm; exact El|].
+    unfold ls, rs. rewrite !concat_map_concat. apply Permutation_app.
+    - eapply Permutation_trans; [apply Hdeal|exact HL].
+    - eapply Permutation_trans; [apply Hdeal|exact HR].
+  Qed.
+
+  Lemma hashjoin_refine pth d en k hk conds cs la ra (Lg Lw Rg Rw : list (list value)) want :
+    hkind_of k = Some hk -> cmp_conds conds = Some cs ->
+    Permutation Lg Lw -> Permutation Rg Rw ->
+    join2 k Lw Rw la ra (eval_conds d en conds) = Ok want ->
+    Permutation
+      (hash_join hash (map (fun c => match c with (op, _, _) => op end) cs)
+         (fun x => unres [] (mapM (fun c => match c with (_, a, _) => eval_pexpr d (x :: en) a end) cs))
+         (fun y => unres [] (mapM (fun c => match c with (_, _, b) => eval_pexpr d (y :: en) b end) cs))
+         kbits hk la ra Pn (deal pth 0 Lg) (perm_b pth (stored_rows (deal pth 0 Lg))) (deal pth 1 Rg))
+      want.
+  Proof.
+    intros Hk Hc HL HR Hw. destruct (join2_ok _ _ _ _ _ _ _ Hw) as [Ht ->].
+    eapply Permutation_trans; [apply (hash_join_pure hash Hhash); [exact HPn|apply Hpb]|].
+    rewrite (spec_kind_h k hk Hk).
+    eapply Permutation_trans.
+    - apply pure_join_perm; [eapply Permutation_trans; [apply Hdeal|exact HL]|eapply Permutation_trans; [apply Hdeal|exact HR]].
+    - rewrite (pure_join_ext_in k Lw Rw la ra _ (fun l r => unres false (eval_conds d en conds l r))); [apply Permutation_refl|].
+      intros l r Hl Hr. destruct (Ht l r Hl Hr) as [b Hb]. rewrite Hb. cbn [unres].
+      rewrite (cmp_conds_some conds cs Hc) in Hb. symmetry. exact (conds_eval_match d en cs l r b Hb).
+  Qed.
+
+  (* ---------------------------------------------------------------- sort *)
+  Lemma number_parts_concat : forall ps s,
+    concat (number_parts s ps) = combine (seq s (length (concat ps))) (concat ps).
+  Proof.
+    induction ps as [|p ps IH]; intros s; [reflexivity|]. cbn [number_parts concat].
+    rewrite IH, app_length, seq_app. symmetry. apply combine_app_eq. rewrite seq_length. reflexivity.
+  Qed.
+
+  Lemma mapM_o_ok {A B} (f : A -> option B) (dflt : B) : forall l ys, mapM_o f l = Ok ys ->
+    ys = map (fun x => match f x with Some y => y | None => dflt end) l.
+  Proof.
+    induction l as [|x l IH]; intros ys H; [cbn in H; injection H as <-; reflexivity|].
+    cbn [mapM_o] in H. destruct (f x) as [y|] eqn:E; [|discriminate].
+    destruct (bind_ok _ _ _ H) as [ys' [H1 H2]]. injection H2 as <-. cbn [map]. rewrite E, (IH _ H1). reflexivity.
+  Qed.
+
+  Lemma row_of_srow_of keys (all : list (list value)) i r :
+    nth_error all i = Some r -> row_of_srow all (srow_of keys (i, r)) = Some r.
+  Proof. intros H. unfold row_of_srow, srow_of. cbn [snd fst]. rewrite Nat2N.id. exact H. Qed.
+
+  Lemma In_combine_seq {A} (l : list A) : forall s i x, In (i, x) (combine (seq s (length l)) l) -> nth_error l (i - s) = Some x /\ s <= i.
+  Proof.
+    induction l as [|a l IH]; intros s i x H; [destruct H|]. cbn [length seq combine] in H. destruct H as [H|H].
+    - injection H as <- <-. rewrite Nat.sub_diag. split; [reflexivity|lia].
+    - destruct (IH _ _ _ H) as [H1 H2]. split; [|lia]. replace (i - s) with (S (i - S s)) by lia. exact H1.
+  Qed.
+
+  (* the merged runs, decoded: all rows of the input, each once *)
+  Lemma sort_decode pth keys cs (parts : list (list (list value))) got :
+    mapM_o (row_of_srow (concat parts))
+           (merge_tree cs (tree_of pth (map (fun p => isort cs (map (srow_of keys) p)) (number_parts 0 parts)))) = Ok got ->
+    Permutation got (concat parts) /\
+    Sorted (fun a b => sle cs a b = true)
+           (merge_tree cs (tree_of pth (map (fun p => isort cs (map (srow_of keys) p)) (number_parts 0 parts)))) /\
+    Permutation (merge_tree cs (tree_of pth (map (fun p => isort cs (map (srow_of keys) p)) (number_parts 0 parts))))
+                (map (srow_of keys) (combine (seq 0 (length (concat parts))) (concat parts))) /\
+    got = map (fun s => match row_of_srow (concat parts) s with Some r => r | None => [] end)
+              (merge_tree cs (tree_of pth (map (fun p => isort cs (map (srow_of keys) p)) (number_parts 0 parts)))).
+  Proof.
+    set (rs := map (fun p => isort cs (map (srow_of keys) p)) (number_parts 0 parts)).
+    intros H. destruct (Htree pth rs) as [Hperm Hsorted].
+    assert (Hall : all_runs (Sorted (fun a b => sle cs a b = true)) (tree_of pth rs)).
+    { apply Hsorted. unfold rs. apply Forall_forall. intros r Hr. apply in_map_iff in Hr. destruct Hr as [p [<- _]].
+      apply sortedb_Sorted. apply isort_sorted. }
+    destruct (merge_tree_sorted_perm cs (tree_of pth rs) Hall) as [HS HP].
+    assert (HM : Permutation (merge_tree cs (tree_of pth rs))
+                             (map (srow_of keys) (combine (seq 0 (length (concat parts))) (concat parts)))).
+    { eapply Permutation_trans; [exact HP|]. eapply Permutation_trans; [exact Hperm|].
+      rewrite <- number_parts_concat, concat_map. unfold rs.
+      generalize (number_parts 0 parts). intros nps. induction nps as [|p nps IH]; [constructor|].
+      cbn [map concat]. apply Permutation_app; [apply isort_perm|exact IH]. }
+    pose proof (mapM_o_ok _ [] _ _ H) as Eg.
+    split; [|split; [exact HS|split; [exact HM|exact Eg]]].
+    rewrite Eg. eapply Permutation_trans; [apply Permutation_map; exact HM|].
+    rewrite map_map.
+    rewrite (map_ext_in _ snd).
+    - rewrite combine_seq_snd. apply Permutation_refl.
+    - intros [i r] Hin. destruct (In_combine_seq _ _ _ _ Hin) as [Hn _]. rewrite Nat.sub_0_r in Hn.
+      rewrite (row_of_srow_of keys _ i r Hn). reflexivity.
+  Qed.
+
+  (* ---------------------------------------------------------------- the refinement, as bags *)
+  Theorem phys_refines_bag : forall l, no_limit l = true ->
+    forall pth d en got want,
+    exec pth d en (phys_of l) = Ok got -> eval_lplan d en l = Ok want -> Permutation got want.
+  Proof.
+    apply (lplan_ind2 (fun l => no_limit l = true -> forall pth d en got want,
+             exec pth d en (phys_of l) = Ok got -> eval_lplan d en l = Ok want -> Permutation got want)).
+    - (* Scan *) intros t _ pth d en got want Hg Hw. cbn in Hg, Hw. rewrite Hg in Hw. injection Hw as <-. apply Permutation_refl.
+    - (* SingleRow *) intros _ pth d en got want Hg Hw. cbn in Hg, Hw. injection Hg as <-. injection Hw as <-. apply Permutation_refl.
+    - (* ExprList *) intros rows _ pth d en got want Hg Hw. cbn [phys_of exec_pplan eval_lplan] in Hg, Hw. rewrite Hg in Hw.
+      injection Hw as <-. apply Permutation_refl.
+    - (* Filter *) intros e c IH Hn pth d en got want Hg Hw. cbn [no_limit] in Hn. cbn [phys_of exec_pplan] in Hg. cbn [eval_lplan] in Hw.
+      destruct (bind_ok _ _ _ Hg) as [rows' [Hc' Hg1]]. destruct (bind_ok _ _ _ Hw) as [rows [Hc Hw1]].
+      apply (rfilter_perm _ _ _ _ _ (Permutation_trans (Hdeal _ _ _) (IH Hn _ _ _ _ _ Hc' Hc)) Hg1 Hw1).
+    - (* Project *) intros es c IH Hn pth d en got want Hg Hw. cbn [no_limit] in Hn. cbn [phys_of exec_pplan] in Hg. cbn [eval_lplan] in Hw.
+      destruct (bind_ok _ _ _ Hg) as [rows' [Hc' Hg1]]. destruct (bind_ok _ _ _ Hw) as [rows [Hc Hw1]].
+      apply (rproject_perm _ _ _ _ _ (Permutation_trans (Hdeal _ _ _) (IH Hn _ _ _ _ _ Hc' Hc)) Hg1 Hw1).
+    - (* ProjectAll *) intros c IH Hn pth d en got want Hg Hw. exact (IH Hn _ _ _ _ _ Hg Hw).
+    - (* CrossJoin *) intros l r IHl IHr Hn pth d en got want Hg Hw. cbn [no_limit] in Hn. apply andb_true_iff in Hn. destruct Hn as [Hnl Hnr].
+      cbn [phys_of exec_pplan] in Hg. cbn [eval_lplan] in Hw.
+      destruct (bind_ok _ _ _ Hg) as [Lg [HLg Hg1]]. destruct (bind_ok _ _ _ Hg1) as [Rg [HRg Hg2]].
+      destruct (bind_ok _ _ _ Hg2) as [chk [_ Hg3]]. injection Hg3 as <-.
+      destruct (bind_ok _ _ _ Hw) as [Lw [HLw Hw1]]. destruct (bind_ok _ _ _ Hw1) as [Rw [HRw Hw2]]. injection Hw2 as <-.
+      rewrite nl_cross_as_true. rewrite (rcross_pure Lw Rw 0 0).
+      eapply Permutation_trans; [apply nl_join_pure; apply Hpl|]. cbn [kind_of_n pure_h spec_kind].
+      apply pure_join_perm; [eapply Permutation_trans; [apply Hdeal|exact (IHl Hnl _ _ _ _ _ HLg HLw)]
+                            |eapply Permutation_trans; [apply Hdeal|exact (IHr Hnr _ _ _ _ _ HRg HRw)]].
+    - (* ArbitraryJoin *) intros k c la ra l r IHl IHr Hn pth d en got want Hg Hw. cbn [no_limit] in Hn. apply andb_true_iff in Hn. destruct Hn as [Hnl Hnr].
+      cbn [phys_of] in Hg. destruct (nkind_of k) as [nk|] eqn:Ek; [|discriminate Hg].
+      cbn [exec_pplan] in Hg. cbn [eval_lplan] in Hw.
+      destruct (bind_ok _ _ _ Hg) as [Lg [HLg Hg1]]. destruct (bind_ok _ _ _ Hg1) as [Rg [HRg Hg2]].
+      destruct (bind_ok _ _ _ Hg2) as [chk [_ Hg3]]. injection Hg3 as <-.
+      destruct (bind_ok _ _ _ Hw) as [Lw [HLw Hw1]]. destruct (bind_ok _ _ _ Hw1) as [Rw [HRw Hw2]].
+      destruct (rjoin_ok_pure _ _ _ _ _ _ _ Hw2) as [_ ->].
+      apply (nl_refine pth d en k nk (NCWhole c) la ra Lg Lw Rg Rw _ Ek (IHl Hnl _ _ _ _ _ HLg HLw) (IHr Hnr _ _ _ _ _ HRg HRw)).
+      intros x y _ _. reflexivity.
+    - (* ComparisonJoin *) intros k cs la ra l r IHl IHr Hn pth d en got want Hg Hw. cbn [no_limit] in Hn. apply andb_true_iff in Hn. destruct Hn as [Hnl Hnr].
+      cbn [eval_lplan] in Hw.
+      destruct (bind_ok _ _ _ Hw) as [Lw [HLw Hw1]]. destruct (bind_ok _ _ _ Hw1) as [Rw [HRw Hw2]].
+      destruct (bind_ok _ _ _ Hw2) as [LK [_ Hw3]]. destruct (bind_ok _ _ _ Hw3) as [RK [_ Hw4]].
+      change (join2 k Lw Rw la ra (eval_conds d en cs) = Ok want) in Hw4.
+      cbn [phys_of] in Hg.
+      destruct (existsb (fun c => match c with (o, _, _) => jop_is_eq o end) cs).
+      + destruct (hkind_of k) as [hk|] eqn:Ek; [|discriminate Hg]. destruct (cmp_conds cs) as [ccs|] eqn:Ec; [|discriminate Hg].
+        cbn [exec_pplan] in Hg.
+        destruct (bind_ok _ _ _ Hg) as [Lg [HLg Hg1]]. destruct (bind_ok _ _ _ Hg1) as [Rg [HRg Hg2]].
+        destruct (bind_ok _ _ _ Hg2) as [c1 [_ Hg3]]. destruct (bind_ok _ _ _ Hg3) as [c2 [_ Hg4]]. injection Hg4 as <-.
+        exact (hashjoin_refine pth d en k hk cs ccs la ra Lg Lw Rg Rw want Ek Ec
+                 (IHl Hnl _ _ _ _ _ HLg HLw) (IHr Hnr _ _ _ _ _ HRg HRw) Hw4).
+      + destruct (nkind_of k) as [nk|] eqn:Ek; [|discriminate Hg]. cbn [exec_pplan] in Hg.
+        destruct (bind_ok _ _ _ Hg) as [Lg [HLg Hg1]]. destruct (bind_ok _ _ _ Hg1) as [Rg [HRg Hg2]].
+        destruct (bind_ok _ _ _ Hg2) as [chk [_ Hg3]]. injection Hg3 as <-.
+        destruct (join2_ok _ _ _ _ _ _ _ Hw4) as [_ ->].
+        apply (nl_refine pth d en k nk (NCConds cs) la ra Lg Lw Rg Rw _ Ek (IHl Hnl _ _ _ _ _ HLg HLw) (IHr Hnr _ _ _ _ _ HRg HRw)).
+        intros x y _ _. reflexivity.
+    - (* DependentJoin *) intros k on ra l r _ _ _ pth d en got want Hg. discriminate Hg.
+    - (* Aggregate *) intros keys aggs c IH Hn pth d en got want Hg Hw. cbn [no_limit] in Hn. cbn [phys_of] in Hg.
+      destruct (existsb (fun a => match a with (_, dis, _) => dis end) aggs) eqn:Ed; [discriminate Hg|].
+      cbn [eval_lplan] in Hw. destruct (bind_ok _ _ _ Hw) as [rows [Hc Hw1]]. unfold ragg in Hw1.
+      destruct keys as [|k0 keys].
+      + cbn [exec_pplan] in Hg. destruct (bind_ok _ _ _ Hg) as [rows' [Hc' Hg1]].
+        exact (ungrouped_refine pth d en aggs rows' rows got want Ed (IH Hn _ _ _ _ _ Hc' Hc) Hg1 Hw1).
+      + cbn [exec_pplan] in Hg. destruct (bind_ok _ _ _ Hg) as [rows' [Hc' Hg1]].
+        exact (hashagg_refine pth d en (k0 :: keys) aggs rows' rows got want Ed (IH Hn _ _ _ _ _ Hc' Hc) Hg1 Hw1).
+    - (* Distinct *) intros c IH Hn pth d en got want Hg Hw. cbn [no_limit] in Hn. cbn [phys_of exec_pplan] in Hg. cbn [eval_lplan] in Hw.
+      destruct (bind_ok _ _ _ Hg) as [rows' [Hc' Hg1]]. destruct (bind_ok _ _ _ Hw) as [rows [Hc Hw1]]. injection Hw1 as <-.
+      exact (distinct_refine pth rows' rows got (IH Hn _ _ _ _ _ Hc' Hc) Hg1).
+    - (* Setop *) intros all l r IHl IHr Hn pth d en got want Hg Hw. cbn [no_limit] in Hn. apply andb_true_iff in Hn. destruct Hn as [Hnl Hnr].
+      cbn [eval_lplan] in Hw. destruct (bind_ok _ _ _ Hw) as [Lw [HLw Hw1]]. destruct (bind_ok _ _ _ Hw1) as [Rw [HRw Hw2]]. injection Hw2 as <-.
+      cbn [phys_of] in Hg. destruct all.
+      + cbn [exec_pplan] in Hg. destruct (bind_ok _ _ _ Hg) as [Lg [HLg Hg1]]. destruct (bind_ok _ _ _ Hg1) as [Rg [HRg Hg2]].
+        exact (union_refine pth Lg Lw Rg Rw got (IHl Hnl _ _ _ _ _ HLg HLw) (IHr Hnr _ _ _ _ _ HRg HRw) Hg2).
+      + cbn [exec_pplan] in Hg. destruct (bind_ok _ _ _ Hg) as [U [HU Hg0]].
+        destruct (bind_ok _ _ _ HU) as [Lg [HLg Hg1]]. destruct (bind_ok _ _ _ Hg1) as [Rg [HRg Hg2]].
+        pose proof (union_refine (0 :: pth) Lg Lw Rg Rw U (IHl Hnl _ _ _ _ _ HLg HLw) (IHr Hnr _ _ _ _ _ HRg HRw) Hg2) as HUp.
+        exact (distinct_refine pth U (Lw ++ Rw) got HUp Hg0).
+    - (* Order *) intros keys c IH Hn pth d en got want Hg Hw. cbn [no_limit] in Hn. cbn [phys_of exec_pplan] in Hg. cbn [eval_lplan] in Hw.
+      destruct (bind_ok _ _ _ Hg) as [rows' [Hc' Hg1]]. destruct (bind_ok _ _ _ Hw) as [rows [Hc Hw1]]. injection Hw1 as <-.
+      destruct (sort_typed_b _ keys); [|discriminate Hg1].
+      destruct (sort_decode pth keys _ (map (@concat row) (deal pth 0 rows')) got Hg1) as [HP _].
+      eapply Permutation_trans; [exact HP|]. rewrite concat_map_concat.
+      eapply Permutation_trans; [apply Hdeal|]. eapply Permutation_trans; [exact (IH Hn _ _ _ _ _ Hc' Hc)|].
+      apply Permutation_sym. unfold rsort. apply RelProofs.sort_by_perm.
+    - (* Limit *) intros lim off c _ Hn. discriminate Hn.
+    - (* MaterializationScan *) intros c IH Hn pth d en got want Hg Hw. exact (IH Hn _ _ _ _ _ Hg Hw).
+  Qed.
+
+  (* ---------------------------------------------------------------- the sort keys order rows like ORDER BY *)
+  Lemma sint_enc z : in_range 64 z = true -> sint 8 (Z.to_N (z mod 2 ^ 64)) = z.
+  Proof.
+    unfold in_range. intros H. apply andb_true_iff in H. destruct H as [H1 H2].
+    apply Z.leb_le in H1. apply Z.ltb_lt in H2.
+    change (Z.of_N 64 - 1)%Z with 63%Z in *.
+    unfold sint, top_bit, bitsw. change (8 * N.of_nat 8)%N with 64%N. change (64 - 1)%N with 63%N.
+    destruct (Z_lt_le_dec z 0) as [Hneg|Hpos].
+    - assert (E : (z mod 2 ^ 64 = z + 2 ^ 64)%Z).
+      { symmetry. apply (Z.mod_unique z (2 ^ 64) (-1) (z + 2 ^ 64))%Z; lia. }
+      rewrite E. assert (Hlt : (Z.to_N (z + 2 ^ 64) <? 2 ^ 63)%N = false).
+      { apply N.ltb_ge. apply N2Z.inj_le. rewrite Z2N.id by lia. change (Z.of_N (2 ^ 63)) with (2 ^ 63)%Z. lia. }
+      rewrite Hlt. rewrite Z2N.id by lia. change (Z.of_N 64) with 64%Z. lia.
+    - assert (E : (z mod 2 ^ 64 = z)%Z) by (apply Z.mod_small; lia).
+      rewrite E. assert (Hlt : (Z.to_N z <? 2 ^ 63)%N = true).
+      { apply N.ltb_lt. apply N2Z.inj_lt. rewrite Z2N.id by lia. change (Z.of_N (2 ^ 63)) with (2 ^ 63)%Z. lia. }
+      rewrite Hlt. apply Z2N.id. lia.
+  Qed.
+
+  Lemma col_cmp_enc kd desc nf v1 v2 : key_ok kd v1 = true -> key_ok kd v2 = true ->
+    col_cmp (Build_kcol (kty_of_kind kd) desc nf) (enc_key v1) (enc_key v2) = key_cmp desc nf v1 v2.
+  Proof.
+    intros H1 H2. unfold col_cmp, key_cmp. cbn [k_nulls_first k_desc k_ty].
+    destruct v1 as [|b1|z1|s1], v2 as [|b2|z2|s2]; cbn [enc_key]; try reflexivity;
+      cbn [key_ok vkind] in H1, H2.
+    - apply Nat.eqb_eq in H1. subst kd. cbn [kty_of_kind val_cmp val_compare]. destruct b1, b2; reflexivity.
+    - apply Nat.eqb_eq in H1. apply andb_true_iff in H2. destruct H2 as [H2 _]. apply Nat.eqb_eq in H2. congruence.
+    - apply Nat.eqb_eq in H1. apply Nat.eqb_eq in H2. congruence.
+    - apply Nat.eqb_eq in H2. apply andb_true_iff in H1. destruct H1 as [H1 _]. apply Nat.eqb_eq in H1. congruence.
+    - apply andb_true_iff in H1. destruct H1 as [Hk1 Hr1]. apply andb_true_iff in H2. destruct H2 as [_ Hr2].
+      apply Nat.eqb_eq in Hk1. subst kd. cbn [kty_of_kind val_cmp val_compare].
+      rewrite (sint_enc z1 Hr1), (sint_enc z2 Hr2). reflexivity.
+    - apply Nat.eqb_eq in H2. apply andb_true_iff in H1. destruct H1 as [H1 _]. apply Nat.eqb_eq in H1. congruence.
+    - apply Nat.eqb_eq in H1. apply Nat.eqb_eq in H2. congruence.
+    - apply Nat.eqb_eq in H1. apply andb_true_iff in H2. destruct H2 as [H2 _]. apply Nat.eqb_eq in H2. congruence.
+    - apply Nat.eqb_eq in H1. subst kd. cbn [kty_of_kind val_cmp val_compare]. reflexivity.
+  Qed.
+
+  Lemma row_cmp_enc (all : list (list value)) keys r1 r2 :
+    (forall k, In k keys -> match k with (i, _, _) => key_ok (col_kind all i) (nth i r1 VNull) = true /\
+                                                      key_ok (col_kind all i) (nth i r2 VNull) = true end) ->
+    row_cmp (sort_cols all keys)
+            (map (fun k => match k with (i, _, _) => enc_key (nth i r1 VNull) end) keys)
+            (map (fun k => match k with (i, _, _) => enc_key (nth i r2 VNull) end) keys)
+    = keys_cmp keys r1 r2.
+  Proof.
+    induction keys as [|[[i desc] nf] keys IH]; intros H; [reflexivity|].
+    cbn [sort_cols map row_cmp keys_cmp]. destruct (H (i, desc, nf) (or_introl eq_refl)) as [H1 H2].
+    rewrite (col_cmp_enc _ desc nf _ _ H1 H2).
+    destruct (key_cmp desc nf (nth i r1 VNull) (nth i r2 VNull)); try reflexivity.
+    apply IH. intros k Hk. apply H. right. exact Hk.
+  Qed.
+
+  Lemma Sorted_map_in {A B} (R : A -> A -> Prop) (R' : B -> B -> Prop) (f : A -> B) l :
+    (forall a b, In a l -> In b l -> R a b -> R' (f a) (f b)) -> Sorted R l -> Sorted R' (map f l).
+  Proof.
+    intros H HS. induction HS as [|a l HS IH Hd]; [constructor|]. cbn [map]. constructor.
+    - apply IH. intros x y Hx Hy. apply H; right; assumption.
+    - destruct Hd as [|b l Hab]; [constructor|]. cbn [map]. constructor. apply H; [left; reflexivity|right; left; reflexivity|exact Hab].
+  Qed.
+
+  Lemma sort_sorted pth keys (parts : list (list (list value))) got :
+    sort_typed_b (concat parts) keys = true ->
+    mapM_o (row_of_srow (concat parts))
+           (merge_tree (sort_cols (concat parts) keys)
+              (tree_of pth (map (fun p => isort (sort_cols (concat parts) keys) (map (srow_of keys) p)) (number_parts 0 parts)))) = Ok got ->
+    Permutation got (concat parts) /\ sorted_by keys got = true.
+  Proof.
+    intros Ht Hg. set (all := concat parts) in *. set (cs := sort_cols all keys) in *.
+    destruct (sort_decode pth keys cs parts got Hg) as [HP [HS [HM Eg]]]. split; [exact HP|].
+    apply sorted_by_Sorted. rewrite Eg.
+    apply (Sorted_map_in (fun a b => sle cs a b = true)); [|exact HS].
+    intros a b Ha Hb Hab.
+    apply (Permutation_in a HM) in Ha. apply (Permutation_in b HM) in Hb.
+    apply in_map_iff in Ha. destruct Ha as [[i1 r1] [<- Hi1]]. apply in_map_iff in Hb. destruct Hb as [[i2 r2] [<- Hi2]].
+    destruct (In_combine_seq _ _ _ _ Hi1) as [Hn1 _]. destruct (In_combine_seq _ _ _ _ Hi2) as [Hn2 _].
+    rewrite Nat.sub_0_r in Hn1, Hn2.
+    pose proof (row_of_srow_of keys all i1 r1 Hn1) as E1. pose proof (row_of_srow_of keys all i2 r2 Hn2) as E2.
+    cbv beta. unfold all in E1, E2. rewrite E1, E2. fold all.
+    unfold sle, rle, srow_of in Hab. cbn [fst snd] in Hab. unfold keys_le.
+    rewrite <- (row_cmp_enc all keys r1 r2); [exact Hab|].
+    intros [[i desc] nf] Hk. unfold sort_typed_b in Ht. rewrite forallb_forall in Ht. specialize (Ht _ Hk). cbn beta iota in Ht.
+    rewrite forallb_forall in Ht. split; apply Ht; eapply nth_error_In; eassumption.
+  Qed.
+
+  (* ---------------------------------------------------------------- composition with the planner and the judge *)
+  Lemma sorted_by_nil l : sorted_by [] l = true.
+  Proof. induction l as [|x [|y l] IH]; try reflexivity. cbn [sorted_by] in *. exact IH. Qed.
+
+  Theorem end_to_end_unordered sch d q pth got want want' :
+    db_arity_ok sch d = true -> joins_wf sch q = true -> is_order_limit q = false -> no_limit (plan_of q) = true ->
+    eval_query d [] q = Ok want -> eval_lplan d [] (plan_of q) = Ok want' ->
+    exec pth d [] (phys_of (plan_of q)) = Ok got ->
+    check_answer d q got = VOk.
+  Proof.
+    intros Hd Hq Ho Hn Hs Hl Hp.
+    pose proof (plan_of_correct_ok sch d q [] want want' Hd Hq Hs Hl) as E. subst want'.
+    apply (check_answer_complete_unordered d q got want Ho Hs).
+    apply Permutation_sym. exact (phys_refines_bag (plan_of q) Hn pth d [] got want Hp Hl).
+  Qed.
+
+  (* the input of ORDER BY [LIMIT]: sorted when there are keys *)
+  Lemma order_stage pth d en keys p (S inp : list (list value)) :
+    no_limit p = true -> eval_lplan d en p = Ok inp ->
+    exec pth d en (phys_of (match keys with [] => p | _ :: _ => LOrder keys p end)) = Ok S ->
+    Permutation S inp /\ sorted_by keys S = true.
+  Proof.
+    intros Hn Hl Hp. destruct keys as [|k0 keys].
+    - split; [exact (phys_refines_bag p Hn pth d en S inp Hp Hl)|apply sorted_by_nil].
+    - cbn [phys_of exec_pplan] in Hp. destruct (bind_ok _ _ _ Hp) as [rows' [Hc Hp1]].
+      destruct (sort_typed_b (concat (map (@concat row) (deal pth 0 rows'))) (k0 :: keys)) eqn:Et; [|discriminate Hp1].
+      destruct (sort_sorted pth (k0 :: keys) (map (@concat row) (deal pth 0 rows')) S Et Hp1) as [HP HS].
+      split; [|exact HS]. eapply Permutation_trans; [exact HP|]. rewrite concat_map_concat.
+      eapply Permutation_trans; [apply Hdeal|]. exact (phys_refines_bag p Hn (0 :: pth) d en rows' inp Hc Hl).
+  Qed.
+
+  Theorem end_to_end_ordered sch d q' keys lim off pth got inp inp' :
+    db_arity_ok sch d = true -> joins_wf sch q' = true -> no_limit (plan_of q') = true ->
+    eval_query d [] q' = Ok inp -> eval_lplan d [] (plan_of q') = Ok inp' ->
+    exec pth d [] (phys_of (plan_of (QOrderLimit q' keys lim off))) = Ok got ->
+    exists p, Permutation p inp /\ sorted_by keys p = true /\ got = slice_rows off lim p.
+  Proof.
+    intros Hd Hq Hn Hs Hl Hp.
+    pose proof (plan_of_correct_ok sch d q' [] inp inp' Hd Hq Hs Hl) as E. subst inp'.
+    change (plan_of (QOrderLimit q' keys lim off))
+      with (let po := match keys with [] => plan_of q' | _ :: _ => LOrder keys (plan_of q') end in
+            match lim, off with None, O => po | _, _ => LLimit lim off po end) in Hp.
+    cbv zeta in Hp.
+    destruct lim as [n|].
+    - (* LIMIT n OFFSET off *)
+      cbn [phys_of exec_pplan] in Hp. destruct (bind_ok _ _ _ Hp) as [S [HS Hp1]].
+      destruct (order_stage (0 :: pth) d [] keys (plan_of q') S inp Hn Hl HS) as [HPS HSS].
+      set (bs := match phys_of (match keys with [] => plan_of q' | _ :: _ => LOrder keys (plan_of q') end) with
+                 | XSort _ _ => batching pth S
+                 | _ => interleave (lsched pth) (deal pth 0 S)
+                 end) in *.
+      destruct (limit_slice_exact row n (Some off) bs) as [st [outs [ps [Hr Ho]]]]. rewrite Hr in Hp1. injection Hp1 as <-.
+      exists (concat bs). split; [|split; [|exact Ho]].
+      + destruct keys as [|k0 keys].
+        * subst bs. destruct (phys_of (plan_of q')); try (eapply Permutation_trans; [apply Hlsched|]; eapply Permutation_trans; [apply Hdeal|exact HPS]).
+          rewrite Hbatch. exact HPS.
+        * subst bs. cbn [phys_of]. rewrite Hbatch. exact HPS.
+      + destruct keys as [|k0 keys]; [apply sorted_by_nil|]. subst bs. cbn [phys_of]. rewrite Hbatch. exact HSS.
+    - destruct off as [|off].
+      + destruct (order_stage pth d [] keys (plan_of q') got inp Hn Hl Hp) as [HPS HSS].
+        exists got. split; [exact HPS|split; [exact HSS|reflexivity]].
+      + discriminate Hp.
+  Qed.
+End Refine.
+
+(* ---------------------------------------------------------------- the hypotheses are satisfiable; a run *)
+
+(* one partition, one batch; rows enter the join table in storage order; a left-deep merge tree *)
+Definition ex_deal : list nat -> nat -> list row -> list (list (list row)) := fun _ _ rows => [[rows]].
+Definition ex_batching : list nat -> list row -> list (list row) := fun _ rows => [rows].
+Definition ex_tree : list nat -> list (list srow) -> mtree :=
+  fun _ rs => fold_right (fun r t => Node (Run r) t) (Run []) rs.
+
+Example oracle_hyps_sat :
+  (forall pth i rows, Permutation (flat (ex_deal pth i rows)) rows) /\
+  (forall pth i rows, ex_deal pth i rows <> []) /\
+  (forall (pth : list nat) (l : list bptr), Permutation l l) /\
+  hash_ok (fun _ => 0%N) /\
+  (forall pth rs, Permutation (runs (ex_tree pth rs)) (concat rs) /\
+     (forall cs, Forall (Sorted (fun a b => sle cs a b = true)) rs ->
+                 all_runs (Sorted (fun a b => sle cs a b = true)) (ex_tree pth rs))) /\
+  (forall pth rows, concat (ex_batching pth rows) = rows) /\
+  (forall pth rows, Permutation (concat (interleave [0] (ex_deal pth 0 rows))) (flat (ex_deal pth 0 rows))).
+Proof.
+  repeat split.
+  - intros pth i rows. unfold flat, ex_deal. cbn [concat app]. rewrite ?app_nil_r. cbn [concat app]. rewrite ?app_nil_r. apply Permutation_refl.
+  - intros pth i rows. discriminate.
+  - intros. apply Permutation_refl.
+  - unfold ex_tree. induction rs as [|r rs IH]; cbn [fold_right runs concat]; [constructor|].
+    apply Permutation_app_head. exact IH.
+  - intros cs H. unfold ex_tree. induction H as [|r rs Hr _ IH]; cbn [fold_right all_runs]; [constructor|]. split; assumption.
+  - intros pth rows. unfold ex_batching. cbn [concat]. apply app_nil_r.
+  - intros pth rows. unfold ex_deal, flat. cbn. rewrite ?app_nil_r. apply Permutation_refl.
+Qed.
+
+(* the join + group + order + limit example of PlanProofs.v, executed *)
+Example ex_q1_exec :
+  no_limit (plan_of (QSelect (Some (FJoin JInner (FQuery (QTable 0)) (FQuery (QTable 1))
+                      (Some (EAnd (ECmp CEq (ECol 0 0) (ECol 0 2)) (ECmp CGt (ECol 0 2) (EConst (VInt 0))))) 2 2))
+             (Some (ECmp CGt (ECol 0 1) (EConst (VInt 1))))
+             (Some ([ECol 0 0], [(ASum, false, ECol 0 1)]))
+             None [ECol 0 0; ECol 0 1] false)) = true /\
+  exec_pplan ex_deal ex_batching (fun _ l => l) (fun _ l => l) (fun _ => 0%N) 4%N 1 (fun _ => 0%N) 2 4 8
+             ex_tree (fun _ => [0]) (fun _ _ => [UPush; UExec; UExec; UPush; UExec; UExec])
+             [] ex_db [] (phys_of (plan_of ex_q1))
+  = Ok [[VInt 2; VInt 25]; [VInt 1; VInt 10]].
+Proof. split; vm_compute; reflexivity. Qed.
+
+Example ex_q2_exec :
+  no_limit (plan_of ex_q2) = true /\
+  exec_pplan ex_deal ex_batching (fun _ l => l) (fun _ l => l) (fun _ => 0%N) 4%N 1 (fun _ => 0%N) 2 4 8
+             ex_tree (fun _ => [0]) (fun _ _ => [UPush; UExec; UExec; UPush; UExec; UExec])
+             [] ex_db [] (phys_of (plan_of ex_q2))
+  = Ok [[VInt 10]; [VInt 20]; [VInt 5]].
+Proof. split; vm_compute; reflexivity. Qed.
+
+(* ---------------------------------------------------------------- the statements, with the oracle's side conditions bundled *)
+
+(* what is assumed of the runtime's choices (see Section Refine): every row is delivered exactly once and there is at
+   least one partition; insertion and drain orders are orders of the stored rows; equal keys hash equally; at least
+   one drain / output partition and merge chunk; the merge queue merges every sorted run exactly once; the ordered
+   stream is cut into batches without reordering; the limit operator sees every batch of every partition *)
+Definition oracle_ok
+    (deal : list nat -> nat -> list row -> list (list (list row)))
+    (batching : list nat -> list row -> list (list row))
+    (perm_b : list nat -> list bptr -> list bptr) (perm_l : list nat -> list lptr -> list lptr)
+    (hash : list value -> N) (Pn pout chunk : nat)
+    (tree_of : list nat -> list (list srow) -> mtree) (lsched : list nat -> list nat) : Prop :=
+  (forall pth i rows, Permutation (flat (deal pth i rows)) rows) /\
+  (forall pth i rows, deal pth i rows <> []) /\
+  (forall pth l, Permutation (perm_b pth l) l) /\
+  (forall pth l, Permutation (perm_l pth l) l) /\
+  hash_ok hash /\ 1 <= Pn /\ 1 <= pout /\ 1 <= chunk /\
+  (forall pth rs, Permutation (runs (tree_of pth rs)) (concat rs) /\
+     (forall cs, Forall (Sorted (fun a b => sle cs a b = true)) rs ->
+                 all_runs (Sorted (fun a b => sle cs a b = true)) (tree_of pth rs))) /\
+  (forall pth rows, concat (batching pth rows) = rows) /\
+  (forall pth rows, Permutation (concat (interleave (lsched pth) (deal pth 0 rows))) (flat (deal pth 0 rows))).
+
+Section Bundled.
+  Variables (deal : list nat -> nat -> list row -> list (list (list row)))
+            (batching : list nat -> list row -> list (list row))
+            (perm_b : list nat -> list bptr -> list bptr) (perm_l : list nat -> list lptr -> list lptr)
+            (hash : list value -> N) (kbits : N) (Pn : nat) (hasha : row -> N) (pout capacity chunk : nat)
+            (tree_of : list nat -> list (list srow) -> mtree) (lsched : list nat -> list nat)
+            (usched : list nat -> nat -> list uevent).
+  Hypothesis HO : oracle_ok deal batching perm_b perm_l hash Pn pout chunk tree_of lsched.
+  Notation exec := (exec_pplan deal batching perm_b perm_l hash kbits Pn hasha pout capacity chunk tree_of lsched usched).
+
+  Theorem phys_refines_logical : forall l, no_limit l = true ->
+    forall pth d en got want,
+    exec pth d en (phys_of l) = Ok got -> eval_lplan d en l = Ok want -> Permutation got want.
+  Proof.
+    destruct HO as (H1 & H2 & H3 & H4 & H5 & H6 & H7 & H8 & H9 & _ & _).
+    exact (phys_refines_bag deal batching perm_b perm_l hash kbits Pn hasha pout capacity chunk tree_of lsched usched
+             H1 H2 H3 H4 H5 H6 H7 H8 H9).
+  Qed.
+
+  Theorem end_to_end_unordered_b : forall sch d q pth got want want',
+    db_arity_ok sch d = true -> joins_wf sch q = true -> is_order_limit q = false -> no_limit (plan_of q) = true ->
+    eval_query d [] q = Ok want -> eval_lplan d [] (plan_of q) = Ok want' ->
+    exec pth d [] (phys_of (plan_of q)) = Ok got ->
+    check_answer d q got = VOk.
+  Proof.
+    destruct HO as (H1 & H2 & H3 & H4 & H5 & H6 & H7 & H8 & H9 & _ & _).
+    exact (end_to_end_unordered deal batching perm_b perm_l hash kbits Pn hasha pout capacity chunk tree_of lsched usched
+             H1 H2 H3 H4 H5 H6 H7 H8 H9).
+  Qed.
+
+  Theorem end_to_end_ordered_b : forall sch d q' keys lim off pth got inp inp',
+    db_arity_ok sch d = true -> joins_wf sch q' = true -> no_limit (plan_of q') = true ->
+    eval_query d [] q' = Ok inp -> eval_lplan d [] (plan_of q') = Ok inp' ->
+    exec pth d [] (phys_of (plan_of (QOrderLimit q' keys lim off))) = Ok got ->
+    exists p, Permutation p inp /\ sorted_by keys p = true /\ got = slice_rows off lim p.
+  Proof.
+    destruct HO as (H1 & H2 & H3 & H4 & H5 & H6 & H7 & H8 & H9 & H10 & H11).
+    exact (end_to_end_ordered deal batching perm_b perm_l hash kbits Pn hasha pout capacity chunk tree_of lsched usched
+             H1 H2 H3 H4 H5 H6 H7 H8 H9 H10 H11).
+  Qed.
+End Bundled.
+
+Example oracle_ok_sat : oracle_ok ex_deal ex_batching (fun _ l => l) (fun _ l => l) (fun _ => 0%N) 1 2 8 ex_tree (fun _ => [0]).
+Proof.
+  destruct oracle_hyps_sat as (H1 & H2 & H3 & H5 & H9 & H10 & H11).
+  unfold oracle_ok. split; [exact H1|]. split; [exact H2|]. split; [intros; apply Permutation_refl|].
+  split; [intros; apply Permutation_refl|]. split; [exact H5|]. split; [lia|]. split; [lia|]. split; [lia|].
+  split; [exact H9|]. split; [exact H10|exact H11].
+Qed.
